@@ -465,7 +465,7 @@ func (info *decodeInfo) decodeCharString(code []byte) (*Glyph, error) {
 				if k < 0 {
 					return nil, errStackUnderflow
 				}
-				stack[k] = float64(int64(stack[k]) * int64(stack[k+1]) >> 16)
+				stack[k] = fix(stack[k] * stack[k+1])
 				stack = stack[:k+1]
 			case t2sqrt:
 				k := len(stack) - 1
